@@ -5,6 +5,7 @@
 
 mod bridge;
 mod common;
+mod fuzzcase;
 mod fw;
 mod gen;
 mod oracle;
@@ -19,6 +20,27 @@ fn main() {
         std::process::exit(2);
     }
     match args[1].as_str() {
+        "fuzzcase" => {
+            // lsmon fuzzcase search|prims FILE : replay a libFuzzer input in this build
+            let which = args.get(2).cloned().unwrap_or_default();
+            let data = std::fs::read(args.get(3).cloned().unwrap_or_default()).unwrap_or_default();
+            fw::install_panic_hook();
+            let res = std::panic::catch_unwind(|| match which.as_str() {
+                "search" => fuzzcase::run_search_case(&data),
+                #[cfg(lucid_suggest_verif)]
+                "prims" => fuzzcase::run_prims_case(&data),
+                _ => {}
+            });
+            match res {
+                Ok(()) => {
+                    println!("fuzzcase {}: returned normally", which);
+                }
+                Err(_) => {
+                    println!("fuzzcase {}: PANIC {:?}", which, fw::last_panic());
+                    std::process::exit(1);
+                }
+            }
+        }
         "merge-keys" => {
             println!("{}", fw::merge_keys(&args[2..]));
         }
